@@ -948,12 +948,13 @@ func (r *reader) closeList() {
 		obj = newComplex(list)
 	default:
 		if 3 <= len(list) && list[len(list)-2] == Symbol(".") {
-			if list[len(list)-1] == nil {
-				list[len(list)-2] = nil
+			if tail, ok := list[len(list)-1].(List); list[len(list)-1] == nil || (ok && len(tail) == 0) {
+				// (a . nil) and (a . ()) are (a)
+				list = list[:len(list)-2]
 			} else {
 				list[len(list)-2] = Tail{Value: list[len(list)-1]}
+				list = list[:len(list)-1]
 			}
-			list = list[:len(list)-1]
 			obj = list
 		} else {
 			obj = list
